@@ -93,6 +93,55 @@ def S6(kind: str, start: datetime = datetime(2025, 1, 6), length: str = "2w", li
     return sp
 
 
+def S7(kind: str) -> Spec:
+    """backward scheduling: task-level ALAP with end anchors, project-level ALAP with a container anchor, ALAP chain,
+    and two containers with equal local ids"""
+    FRI = DAY0 + 4 * 86400 + 8 * H   # Friday 17:00 of the first week
+    if kind == "same-deadline":
+        tasks = [Task(f"t{i}", effort=P(f"e{i}"), alloc=["r"], scheduling="alap", end=FRI) for i in range(2)]
+        return Spec(tasks, [Res("r")], length="2w")
+    if kind == "chain":
+        tasks = [Task("t0", effort=P("e0"), alloc=["r"]), Task("t1", effort=P("e1"), alloc=["r"], deps=[Dep("t0")], scheduling="alap", end=FRI)]
+        return Spec(tasks, [Res("r")], length="2w")
+    if kind == "container":
+        tasks = [Task("c", end=FRI), Task("a", parent="c", effort=P("e0"), alloc=["r"]), Task("b", parent="c", effort=P("e1"), alloc=["r"], deps=[Dep("c.a")]),
+                 Task("x", parent="c", effort=P("e2"), alloc=["q"])]
+        return Spec(tasks, [Res("r"), Res("q")], length="2w", scheduling="alap")
+    if kind == "project-end":
+        tasks = [Task("a", effort=P("e0"), alloc=["r"]), Task("b", effort=P("e1"), alloc=["r"], deps=[Dep("a")])]
+        return Spec(tasks, [Res("r")], length="2w", scheduling="alap")
+    # same local ids in two containers
+    tasks = [Task("p1", end=FRI), Task("build", parent="p1", effort=P("e0"), alloc=["r"]), Task("test", parent="p1", effort=P("e1"), alloc=["r"], deps=[Dep("p1.build")]),
+             Task("p2", end=FRI - 2 * 86400), Task("build", parent="p2", effort=P("e2"), alloc=["q"]), Task("test", parent="p2", effort=P("e3"), alloc=["q"], deps=[Dep("p2.build")])]
+    return Spec(tasks, [Res("r"), Res("q")], length="2w", scheduling="alap")
+
+
+def S2cross(busy: bool = False) -> Spec:
+    """predecessor on ANOTHER resource ending inside a slot; a short and a long task on r; optionally a high-priority task keeps r busy
+    in the slot of the dependency bound"""
+    tasks = [Task("pre", effort=P("e0"), alloc=["q"]), Task("short", effort=P("e1"), alloc=["r"], deps=[Dep("pre")]), Task("long", effort=P("e2"), alloc=["r"])]
+    if busy:
+        tasks[2].prio = 900
+    return Spec(tasks, [Res("r"), Res("q")], length="2w")
+
+
+def S3mixed() -> Spec:
+    """team r1, r2 after a short solo task on r2 (members have different free time in the shared slot), then a long task on r1"""
+    return Spec([Task("solo", effort=P("e0"), alloc=["r2"], prio=900), Task("team", effort=P("e1"), alloc=["r1", "r2"], prio=800),
+                 Task("long", effort=P("e2"), alloc=["r1"], prio=700)], [Res("r1"), Res("r2")], length="2w")
+
+
+def S2levels(kind: str) -> Spec:
+    """the same predecessor named at two levels of a task's ancestry with different gap / kind"""
+    if kind == "outer-gap":
+        tasks = [Task("spec", effort=P("e0"), alloc=["r"]), Task("build", deps=[Dep("spec", gap="1d")]),
+                 Task("core", parent="build", effort=P("e1"), alloc=["r"], deps=[Dep("spec")])]
+    else:
+        tasks = [Task("spec", effort=P("e0"), alloc=["r"]), Task("build", deps=[Dep("spec")]),
+                 Task("core", parent="build", effort=P("e1"), alloc=["q"], deps=[Dep("spec", gap="1h", onstart=True)])]
+    return Spec(tasks, [Res("r"), Res("q")], length="2w")
+
+
 def ranges_e(spec: Spec, lo: int, hi: int, prio: tuple[int, int] = (1, 1000)) -> dict[str, tuple[int, int]]:
     out = {}
     for n in spec.params():
@@ -143,6 +192,19 @@ def sched_cells(tier: str) -> dict[str, Callable[[], tuple[Spec, dict, Optional[
     add("S4alt", lambda: S4(), 60, 3 * H)
     add("S5containers", lambda: S5(), 60, 2 * H)
     add("S5dated", lambda: S5(dated=True), 60, 2 * H)
+    for kind in ("same-deadline", "chain", "container", "project-end", "same-ids"):
+        add(f"S7[{kind}]", lambda kind=kind: S7(kind), 60, int(2.5 * H))
+    add("S2cross", S2cross, 60, int(2.5 * H))
+    add("S2cross[busy]", lambda: S2cross(True), 60, int(2.5 * H))
+
+    # the dependency bound lies inside a slot that the successor's resource cannot give it (a high-priority task fills it)
+    def busy_narrow():
+        s = S2cross(True)
+        return s, {"e0": (600, 3000), "e1": (60, int(1.5 * H)), "e2": (H, 2 * H)}, None
+    cells["S2cross[busy,bound-slot-full]"] = busy_narrow
+    add("S3mixed", S3mixed, 60, int(2.5 * H))
+    add("S2levels[outer-gap]", lambda: S2levels("outer-gap"), 60, 2 * H)
+    add("S2levels[inner-onstart]", lambda: S2levels("inner-onstart"), 60, 2 * H)
     for kind in ("dres", "wres", "dgroup", "dtask", "dparent"):
         add(f"S6[{kind}]", lambda kind=kind: S6(kind, limit="2h" if kind[0] == "d" else "5h"), H, 6 * H)
     for kind in ("plain", "dated", "start", "dep"):
@@ -163,11 +225,15 @@ class SxCheck:
         c = self.cells_f(tier)
         if self.cell_filter:
             c = {k: v for k, v in c.items() if self.cell_filter(k)}
+        if tier == "quick" and self.cells_f is sched_cells and self.pid in QUICK_CELLS:
+            missing = [n for n in QUICK_CELLS[self.pid] if n not in c]
+            assert not missing, missing
+            c = {n: c[n] for n in QUICK_CELLS[self.pid]}
         return c
 
     def conditions(self, tier: str, seed: int) -> list[dict]:
         b = self.quick_budget if tier == "quick" else self.thorough_budget
-        return [{"name": n, "bounds": f"cell {n}: see checks/sxlib.py", "timeout": b + 60} for n in self._cells(tier)]
+        return [{"name": n, "bounds": f"cell {n}: see checks/sxlib.py", "timeout": int(b * 1.6) + 120} for n in self._cells(tier)]
 
     def make_cell(self, name: str, tier: str) -> Cell:
         made = self._cells(tier)[name]()
@@ -255,3 +321,20 @@ SX_META = {
     "stubs": ["IntTime project clock", "onShift / limit-period tables", "Project.warning captured"],
     "trusted_base": ["CrossHair 0.0.110", "z3 5.1.0", "CPython 3.12", "sx/oracle.py (independent oracles)"],
 }
+
+
+# which cells of the shared family each property runs in the QUICK tier (the thorough tier runs the whole family)
+QUICK_CELLS = {
+    "C01": ["S1x2[eff=1.0]", "S1x2[eff=0.5]", "S2x2[eff=1.0]", "S2x2[eff=2.0]", "S1x2[res=900]", "S1x3[bands=000]", "S2x2+1", "S3team", "S3mixed", "S4alt",
+            "S2cross", "S2cross[busy]", "S7[same-deadline]", "S7[chain]", "S2x2[gap=29min]", "S2x2[onstart]"],
+    "C03": ["S1x2[eff=1.0]", "S1x2[eff=0.5]", "S1x2[eff=2.0]", "S2x2[eff=1.0]", "S2x2[res=900]", "S1x3[bands=010]", "S3team", "S3mixed", "S4alt", "S2cross",
+            "S7[same-deadline]", "S7[container]", "S5containers", "S2x2+1", "S2x2[gap=29min]", "S6[dres]"],
+    "C04": ["S2x2[eff=1.0]", "S2x2[gap=29min]", "S2x2[gap=1h]", "S2x2[gap=1d]", "S2x2[onstart]", "S5containers", "S5dated", "S2x2+milestone", "S2x2+milestone[gap=29min]",
+            "S2levels[outer-gap]", "S2levels[inner-onstart]", "S7[chain]", "S7[container]", "S7[same-ids]", "S2cross", "S10[dep]"],
+    "C06": ["S1x2[eff=1.0]", "S1x2[eff=2.0]", "S2x2[eff=1.0]", "S2x2[eff=0.5]", "S2x2[res=900]", "S2x2[gap=29min]", "S2x2+milestone", "S2x2+milestone[gap=29min]", "S3team",
+            "S3mixed", "S2cross", "S2cross[busy,bound-slot-full]", "S7[same-deadline]", "S7[chain]", "S7[container]", "S7[project-end]"],
+    "C08": ["S1x2[eff=1.0]", "S2x2[eff=1.0]", "S2x2[eff=0.5]", "S2x2[gap=29min]", "S2x2[gap=1h]", "S2x2[onstart]", "S2x2+1", "S3team", "S3mixed", "S2cross", "S2cross[busy]",
+            "S7[same-deadline]", "S7[chain]", "S7[container]", "S7[project-end]", "S7[same-ids]"],
+    "C10": ["S5containers", "S5dated", "S10[plain]", "S10[dated]", "S10[start]", "S10[dep]", "S3team", "S7[container]", "S7[same-ids]", "S2levels[outer-gap]", "S6[dparent]", "S6[dgroup]"],
+}
+
